@@ -22,6 +22,7 @@ type nativeCase struct {
 	Inputs  map[string]interface{} `json:"inputs"`
 	Params  map[string]int         `json:"params"`
 	Known   map[string]bool        `json:"known"`
+	Scale   int                    `json:"scale,omitempty"` // every symbolic byte string is repeated Scale times (short-read replays)
 }
 
 type nativeAssert struct {
@@ -235,6 +236,13 @@ func cmdCheck(args []string) int {
 	for _, r := range results {
 		for _, v := range r.Violations {
 			nc := nativeCase{Harness: r.Spec.Func, Inputs: v.Inputs, Params: r.Spec.Params, Known: cfg.Known}
+			for _, n := range v.Notes {
+				if strings.HasPrefix(n, "short read") {
+					// the counterexample relies on a short read: real inflaters only do that beyond one 32 KiB window,
+					// so the same inputs are replayed with every byte string repeated until the payload exceeds it
+					nc.Scale = 20000
+				}
+			}
 			nres, err := runNative(*repoDir, *verDir, r.Spec.Pkg, []nativeCase{nc})
 			confirmed := false
 			detail := ""
@@ -257,7 +265,7 @@ func cmdCheck(args []string) int {
 			if confirmed {
 				os.MkdirAll(replayDir, 0o755)
 				body, _ := json.MarshalIndent(map[string]interface{}{"property": *prop, "harness": r.Spec.Pkg + ":" + r.Spec.Func, "assert": v.Msg,
-					"inputs": v.Inputs, "params": r.Spec.Params, "known": cfg.Known, "native": detail, "notes": v.Notes}, "", " ")
+					"inputs": v.Inputs, "params": r.Spec.Params, "known": cfg.Known, "native": detail, "notes": v.Notes, "scale": nc.Scale}, "", " ")
 				dig := fmt.Sprintf("%x", sha256.Sum256(body))[:12]
 				path := filepath.Join(replayDir, fmt.Sprintf("%s-%s.json", *prop, dig))
 				os.WriteFile(path, body, 0o644)
@@ -433,13 +441,14 @@ func cmdReplay(args []string) int {
 		Inputs   map[string]interface{} `json:"inputs"`
 		Params   map[string]int         `json:"params"`
 		Known    map[string]bool        `json:"known"`
+		Scale    int                    `json:"scale"`
 	}
 	if err := json.Unmarshal(b, &rec); err != nil {
 		fmt.Println(err)
 		return 2
 	}
 	parts := strings.SplitN(rec.Harness, ":", 2)
-	res, err := runNative("/repo", "/verif", parts[0], []nativeCase{{Harness: parts[1], Inputs: rec.Inputs, Params: rec.Params, Known: rec.Known}})
+	res, err := runNative("/repo", "/verif", parts[0], []nativeCase{{Harness: parts[1], Inputs: rec.Inputs, Params: rec.Params, Known: rec.Known, Scale: rec.Scale}})
 	if err != nil || len(res) != 1 {
 		fmt.Println("replay could not run:", err)
 		return 2
